@@ -313,3 +313,28 @@ func paramInstances(fns []*ssa.Function, p *ssa.Parameter, depth int) (out []arg
 	}
 	return out, len(out) > 0
 }
+
+// staticCallSites: the number of static call sites of f among fns (0 when f is
+// a function literal or is also used as a value).
+func staticCallSites(fns []*ssa.Function, f *ssa.Function) int {
+	if f == nil || f.Parent() != nil {
+		return 0
+	}
+	n := 0
+	for _, g := range fns {
+		for _, b := range g.Blocks {
+			for _, in := range b.Instrs {
+				if ci, ok := in.(ssa.CallInstruction); ok && ci.Common().StaticCallee() == f {
+					n++
+					continue
+				}
+				for _, op := range in.Operands(nil) {
+					if *op == ssa.Value(f) {
+						return 0
+					}
+				}
+			}
+		}
+	}
+	return n
+}
